@@ -180,6 +180,30 @@ var (
 	_ Inferable = &ColAuto{}
 )
 
+// DecodeState implements StateDecoder, so state of inferred column, like
+// LowCardinality, is not left in the stream.
+func (c ColAuto) DecodeState(r *Reader) error {
+	if s, ok := c.Data.(StateDecoder); ok {
+		return s.DecodeState(r)
+	}
+	return nil
+}
+
+// EncodeState implements StateEncoder.
+func (c ColAuto) EncodeState(b *Buffer) {
+	if s, ok := c.Data.(StateEncoder); ok {
+		s.EncodeState(b)
+	}
+}
+
+// Prepare implements Preparable.
+func (c ColAuto) Prepare() error {
+	if s, ok := c.Data.(Preparable); ok {
+		return s.Prepare()
+	}
+	return nil
+}
+
 func (c ColAuto) Type() ColumnType {
 	return c.DataType
 }
